@@ -16,6 +16,18 @@ CHECKS = {
    note=TB + "All C20 theorems are closed under the global context. MPI transport is not modelled (a rank is a stub "
         "DistributedConfiguration).",
    design="7/C20", technique="Coq proof (lia/nia + induction over ranks) + exhaustive in-Coq correspondence"),
+ "C17": dict(
+   text="Proved in Coq over every commutative ring and every matrix size: any history of set_rate calls (accepted or refused, "
+        "negative/out-of-range/diagonal indices included) keeps all column sums and leaves in each off-diagonal element the "
+        "last assigned value; refused calls change nothing; the short-exponential loop conserves the population sum for every "
+        "order, step and number of steps; the order-4 step equals the Taylor polynomial and keeps populations non-negative "
+        "whenever the explicit Euler matrix 1+dt K is non-negative (24 T4 = 9 + 8Y + 6Y^2 + Y^4, Y = 1+dtK: this defines the "
+        "admissible step); structure of the sub-axis propagation matrix for an oracle exponential E. Validated only (named "
+        "limit): agreement of the stored populations and of get_PropagationMatrix with scipy's expm within the truncation "
+        "bound / 1e-9 - the exponential itself is an oracle.",
+   note=TB + "All C17 theorems are closed under the global context. Tie: random set_rate histories compared exactly in Coq; "
+        "propagation compared with the model over exact rationals within 1e-11.",
+   design="7/C17", technique="Coq proof (ring/induction over op histories and Taylor loop) + in-Coq differential correspondence"),
 }
 NOT_YET = {}
 def main():
